@@ -134,7 +134,7 @@ def finish(ctx, rep, write_evidence=True):
         if key in seen_sig:
             continue
         seen_sig.add(key)
-        if shown >= 8:
+        if shown >= int(os.environ.get("VERIF_SHOW", "8")):
             continue
         os.makedirs(outdir, exist_ok=True)
         blob = dumps({'property': ctx.pid, 'sig': v.sig, 'text': v.text,
